@@ -34,6 +34,16 @@ CHECKS = {
          "Span ids: all sequences of <=3 contexts over boundary lengths x boundary spans round-trip. Diagnostics: every failing program/token sequence/byte string of the bounded corpora and a grid of error kinds x position classes is checked for spans inside the source and rendered through Session (hook H3) plain and coloured; locations must equal span starts, trace items must be complete, and --max-trace cropping is checked for every value 0..T+1.",
          "Trusted: hook H3 captures what would be printed; columns compared exactly only on printable-ASCII line prefixes.",
          "DESIGN.md §4 C16"),
+ "C07": ("model_checking",
+         "exhaustive enumeration of ordered triples of an object pool in both bracketings against each other, against a reference interpreter (model) and against the observer-consistency invariants",
+         "Every ordered triple of the object pool is evaluated as (A+B)+C and A+(B+C) and compared on an observation vector (objectFields(All), length, in, objectHas(All), manifestation, each field value incl. hidden ones); {} is checked as left and right identity; all observers must agree on which fields exist; for literal members the reference interpreter predicts the vector (late binding of self, super = layers to the left, visibility table); std.objectRemoveKey laws are checked for every member x key, also after extension on either side.",
+         "Trusted: refeval.rs for the prediction; objects outside the pool are not covered; equivalent bracketings that both fail are compared as failing (messages only when both carry one).",
+         "DESIGN.md §4 C07"),
+ "C08": ("model_checking",
+         "exhaustive enumeration of all ordered pairs (and, on the result tables, all ordered triples) of a value pool under every comparison form against a model on JSON trees",
+         "All ordered pairs of the value pool are evaluated under ==, !=, std.equals, <, <=, >, >=, std.__compare(_array); equality must coincide with equality of the manifested JSON trees (numeric ==), the order with code-point / lexicographic order, unordered kinds must fail; reflexivity, symmetry, transitivity and congruence are checked over the complete tables (all ordered triples); laziness and border cases are pinned.",
+         "Trusted: the JSON-tree model of equality and order; values outside the pool are not covered.",
+         "DESIGN.md §4 C08"),
 }
 def main():
     hooks = subprocess.run(["git","-C","/repo","log","--format=%H %s"],capture_output=True,text=True).stdout.splitlines()
